@@ -116,7 +116,7 @@ def main():
     except IOError as e:
         print("%s: %s" % (strufile, e.strerror), file=sys.stderr)
         sys.exit(1)
-    except (StructureFormatError, NotImplementedError) as e:
+    except (StructureFormatError, NotImplementedError, UnicodeDecodeError) as e:
         print("%s: %s" % (strufile, e), file=sys.stderr)
         sys.exit(1)
     return
